@@ -4,5 +4,5 @@ CONSTANTS
   MetaKinds <- MCMetaKinds
   SizeArgs <- MCSizeArgs
   MaxCalls = 4
-INVARIANTS ChainOk BoundsExact NoSentinelOnWire
+INVARIANTS ChainOk BoundsExact NoSentinelOnWire WellNumberedVerifies
 CHECK_DEADLOCK FALSE
